@@ -372,6 +372,9 @@ func init() {
 				ids := g.mixedList(hz, vz, 1+g.R.Intn(8), 2)
 				th, tv := hz+g.R.Range(-4, 3), vz+g.R.Range(-4, 4)
 				th, tv = max64(0, min64(35, th)), max64(0, min64(35, tv))
+				if g.R.Chance(1, 4) && len(ids) > 1 {
+					ids = append(ids, ids[g.R.Intn(len(ids))])
+				}
 				if zoomChangeSize(ids, th, tv) <= 3000 {
 					return &Call{Op: "change_ext_zoom", IDs: ids, Ints: []int64{th, tv}}
 				}
@@ -421,7 +424,16 @@ func init() {
 				j := g.R.Intn(len(sib))
 				a := parseInts(sib[j])
 				sib = append(sib[:j], sib[j+1:]...)
-				sib = append(sib, g.siblings(a[0], a[1], a[2], a[3], a[4], 19, 20)...)
+				kids := g.siblings(a[0], a[1], a[2], a[3], a[4], 19, 20)
+				// ... and sometimes one of those by its children again: a two-level gap, so that the
+				// coarse siblings are each divided into 64 unit cells
+				if len(kids) > 0 && g.R.Chance(1, 2) && hz+3 <= 35 && vz+3 <= 35 {
+					k := g.R.Intn(len(kids))
+					b := parseInts(kids[k])
+					kids = append(kids[:k], kids[k+1:]...)
+					kids = append(kids, g.siblings(b[0], b[1], b[2], b[3], b[4], 19, 20)...)
+				}
+				sib = append(sib, kids...)
 			}
 			ids = append(ids, sib...)
 		}
@@ -433,11 +445,22 @@ func init() {
 		}
 		g.shuffleStrings(ids)
 		th, tv := hz, vz
-		switch g.R.Intn(6) {
+		switch g.R.Intn(10) {
 		case 0:
 			th, tv = hz+1, vz+1
 		case 1:
 			th, tv = max64(0, hz-1), max64(0, vz-1)
+		case 2: // finer than every input: nothing is a merge candidate, everything passes through
+			d := g.R.Range(2, 4)
+			th, tv = min64(35, hz+d), min64(35, vz+d)
+		case 3: // candidates on one axis only
+			th = min64(35, hz+2)
+		}
+		if g.R.Chance(1, 3) && len(ids) > 1 { // repeated entries already in the base list
+			for k := 1 + g.R.Intn(2); k > 0; k-- {
+				ids = append(ids, ids[g.R.Intn(len(ids))])
+			}
+			g.shuffleStrings(ids)
 		}
 		if sp {
 			out := make([]string, len(ids))
@@ -672,9 +695,16 @@ func init() {
 		n := 1 + g.R.Intn(6)
 		base := g.R.Range(0, pow2(2*qz)-1)
 		rangeMode := g.R.Chance(1, 2)
+		mixedQ := g.R.Chance(1, 3)
 		var out []QV
 		for i := 0; i < n; i++ {
 			q := QV{QZoom: qz, Quadkey: mod(base+g.R.Range(-2, 2), pow2(2*qz)), VZoom: vz, VIndex: g.R.Range(0, min64(pow2(vz)-1, 6))}
+			if mixedQ && qz > 1 && vz > 1 {
+				// ancestors of the base cell: different zooms covering the same space
+				dq, dv := g.R.Range(0, 1), g.R.Range(0, 1)
+				q.QZoom, q.Quadkey = qz-dq, q.Quadkey>>uint(2*dq)
+				q.VZoom, q.VIndex = vz-dv, q.VIndex>>uint(dv)
+			}
 			if rangeMode {
 				q.MinH, q.MaxH = 0, float64(pow2(g.R.Range(6, 12)))
 			} else if g.R.Chance(1, 3) {
@@ -742,9 +772,19 @@ func init() {
 			bz := off>>uint(max64(0, exp-tvz)) + g.R.Range(0, 8)
 			n := 1 + g.R.Intn(6)
 			var ts [][5]int64
+			mixed := g.R.Chance(1, 3) && hz >= 2 && hz <= 33
 			for i := 0; i < n; i++ {
 				z := max64(0, min64(pow2(tvz)-1, bz+g.R.Range(-2, 2)))
+				if mixed {
+					// tiles of different horizontal zoom whose x/y/z numbers coincide
+					h := hz + g.R.Range(0, 2)
+					ts = append(ts, [5]int64{h, mod(bx, 4) + g.R.Range(0, 1), mod(by, 4) + g.R.Range(0, 1), tvz, max64(0, min64(pow2(tvz)-1, bz+g.R.Range(0, 1)))})
+					continue
+				}
 				ts = append(ts, [5]int64{hz, mod(bx+g.R.Range(-1, 1), m), mod(by+g.R.Range(-1, 1), m), tvz, z})
+			}
+			if g.R.Chance(1, 4) && len(ts) > 1 {
+				ts = append(ts, ts[g.R.Intn(len(ts))])
 			}
 			return &Call{Op: op, Tiles: ts, Ints: []int64{exp, off, ovz}}
 		}
